@@ -65,6 +65,8 @@ CLASSES = {
     'any': set(spangen.ALPHABET),
     'nl': {'CR', 'LF'},
     'wide': {'w3', 'w4', 'z3', 'z2'},
+    'cr': {'CR'},
+    'notlf': set(spangen.ALPHABET) - {'LF'},
 }
 
 def case_fields(ct):
